@@ -207,8 +207,9 @@ def correspondence(ctx):
         if rec['live'] == 'TypeError' and not rec['incompatible'] and not ('%' in tree['src'] and "'" in ''.join(tree['env'].values())):
             # (str operands excluded: '%' formatting raises TypeError depending on the value)
             # only a violation when the TypeError is due to the operand TYPES (not e.g. a negative shift count): re-check by types
-            ctx.violation('unreported-tree', {'tree': tree, 'observed': rec,
-                                              'why': 'CPython raises TypeError for %s but TIFA reports nothing' % tree['src']})
+            # a value-dependent `**` inside (negative ** fractional -> complex, and complex // float raises) is the recorded finding
+            ctx.violation(pow_culprit(tree) or 'unreported-tree',
+                          {'tree': tree, 'observed': rec, 'why': 'CPython raises TypeError for %s but TIFA reports nothing' % tree['src']})
         if rec.get('conforms') is False:
             # a value-dependent `**` inside the tree is the recorded finding about `**`, not a new one
             ctx.violation(pow_culprit(tree) or 'nonconforming-tree',
